@@ -341,9 +341,13 @@ def r_conv(f):
         for bi, si, st in b.stmts():
             if st["k"] == "assign" and st["rv"]["k"] == "agg" and st["rv"].get("agg") == "adt" and st["rv"]["adt"].endswith("TooDee"):
                 fnames = st["rv"]["fields_names"]
+                from .rules_serde import size_components
+                smap = size_components(f)          # component of size() -> getter it returns
                 for nm in ("num_cols", "num_rows"):
                     e = strip(d.expr(st["rv"]["fields"][fnames.index(nm)]))
                     okd = e[0] == "call" and e[2] == nm and any(x == ("param", vp) for x in walk(e))
+                    if not okd and e[0] == "field" and strip(e[1])[0] == "call" and strip(e[1])[2] == "size" and smap.get(e[2]) == nm and any(x == ("param", vp) for x in walk(e)):
+                        okd = True
                     n += 1
                     R.inst(b0.ident, "field %s = view.%s()" % (nm, nm), okd)
                     if not okd:
